@@ -716,6 +716,46 @@ func (c *Ctx) ruleIgnoreSetAdd() {
 	c.check(okMod && okInit, "IGNORESET/MODULE", FuncName(mfn), P.Pos(mfn.Pos()), "appends all given tokens and initialises the set", "AddModuleIgnore does not unconditionally append every token and mark the set initialised (Contains returns false for uninitialised sets)")
 }
 
+// hierListShape: the single yield hands out every element of a list that is codeToCheckList[code] when the code is
+// known and the literal ["ALL", code] when it is not.
+func (c *Ctx) hierListShape(fn *ssa.Function, yc *ssa.Call) (bool, string) {
+	P := c.P
+	code := P.Desc(fn.Params[0])
+	u, ok := yc.Call.Args[0].(*ssa.UnOp)
+	if !ok {
+		return false, "the yielded value is not an element of a list"
+	}
+	ia, ok := u.X.(*ssa.IndexAddr)
+	if !ok || !(isRangeIndex(ia.Index) || isFullIndexLoopOver(ia.Index, ia.X)) {
+		return false, "the yielded value is not the element of a loop over a whole list"
+	}
+	isKnown := func(l Lit) bool {
+		lk := lookupOK(l)
+		return lk != nil && strings.Contains(P.Desc(lk.X), "global(codes.codeToCheckList)") && P.Desc(lk.Index) == code
+	}
+	nKnown, nUnknown := 0, 0
+	for _, vc := range P.ValueCases(ia.X, 0) {
+		known := hasLit(vc.Guards, func(l Lit) bool { return l.Pos && isKnown(l) })
+		unknown := hasLit(vc.Guards, func(l Lit) bool { return !l.Pos && isKnown(l) })
+		switch {
+		case known && strings.HasPrefix(vc.Desc, "lookup(global(codes.codeToCheckList); "+code):
+			nKnown++
+		case unknown:
+			el := c.sliceLitDescs(vc.Val)
+			if len(el) != 2 || el[0] != `const("ALL")` || el[1] != code {
+				return false, "unknown codes do not yield [\"ALL\", code]: " + short(vc.Desc)
+			}
+			nUnknown++
+		default:
+			return false, "the list of codes to check is neither codeToCheckList[code] (known code) nor [\"ALL\", code] (unknown code): " + short(vc.Desc)
+		}
+	}
+	if nKnown == 0 || nUnknown == 0 {
+		return false, "known and unknown codes are not both provided for"
+	}
+	return true, ""
+}
+
 // ruleHierarchy: codes.GetCodesForCheck yields ALL, category, code (ALL, code for unknown codes), and the
 // reverse table is built from CodesByCategory for every category and every code.
 func (c *Ctx) ruleHierarchy() {
@@ -734,9 +774,11 @@ func (c *Ctx) ruleHierarchy() {
 		pos    token.Pos
 	}
 	var ys []y
+	var ysRaw []*ssa.Call
 	allInstrs(it, func(b *ssa.BasicBlock, ins ssa.Instruction) {
 		if call, ok := ins.(*ssa.Call); ok && call.Call.Value == yield {
 			ys = append(ys, y{P.Desc(call.Call.Args[0]), P.BlockGuards(b), call.Pos()})
+			ysRaw = append(ysRaw, call)
 		}
 	})
 	sort.Slice(ys, func(i, j int) bool { return ys[i].pos < ys[j].pos })
@@ -770,8 +812,11 @@ func (c *Ctx) ruleHierarchy() {
 		if okShape && !(strings.HasPrefix(ys[2].arg, "elem(lookup(global(codes.codeToCheckList); ") && known(ys[2].guards)) {
 			okShape, why = false, "known codes do not yield every element of codeToCheckList[code]: "+short(ys[2].arg)
 		}
+	} else if len(ysRaw) == 1 {
+		// one loop over a list chosen beforehand: the pre-built list for known codes, ["ALL", code] otherwise
+		okShape, why = c.hierListShape(fn, ysRaw[0])
 	} else {
-		why = fmt.Sprintf("%d yield sites (expected 3: ALL, code for unknown codes; list elements for known ones)", len(ys))
+		why = fmt.Sprintf("%d yield sites (expected 3: ALL, code for unknown codes; list elements for known ones - or one loop over the list chosen that way)", len(ys))
 	}
 	c.check(okShape, "HIER/YIELD", name, P.Pos(fn.Pos()), "yields ALL+code for unknown codes, the whole pre-built list for known ones", why)
 	// the table: init closure of codeToCheckList
